@@ -329,6 +329,27 @@ def p_for_break(k, kind):
     return obs
 
 
+def p_for_pub_secretbreak(k, kind):
+    """public loop bound, secret break condition"""
+    br = k.br
+    _ = br.BranchingValues()
+    _.s = 0
+    n = k.S("n")
+    for i in br._range(3, ctx=_):
+        _.s = _.s + i + 1
+        br._breakif((i == n) if kind == "cmp" else (n - i - 1 < 0), ctx=_)
+    br._endfor(ctx=_)
+    nv = k.v("n")
+    s = 0
+    for i in range(3):
+        s = s + i + 1
+        if ((i == nv) if kind == "cmp" else (nv - i - 1 < 0)):
+            break
+    obs = []
+    compare(obs, _, {"s": s})
+    return obs
+
+
 def p_while_in_for(k, kind):
     """a while loop directly inside the body of a secret-bounded for loop"""
     br = k.br
@@ -404,7 +425,7 @@ PROGRAMS = {"elif2": (p_elif2, ("c", "d", "e", "x")), "elif_cmp": (p_elif_cmp, (
             "if_else": (p_if_else, ("c", "x")), "if_only": (p_if_only, ("c", "x", "y")), "elif": (p_elif, ("c", "d", "x")),
             "nested": (p_nested, ("c", "d", "x")), "nestedop": (p_nested_op, ("c", "x")), "matrix": (p_matrix, ("c", "x")), "while": (p_while, ("n", "b", "x")), "for": (p_for, ("n", "x")),
             "while_pubbreak": (p_while_pubbreak, ("n", "x")), "for_break": (p_for_break, ("n", "b", "x")),
-            "while_in_for": (p_while_in_for, ("n", "b")), "forcheck": (p_forcheck, ("n",)),
+            "while_in_for": (p_while_in_for, ("n", "b")), "for_pub_secretbreak": (p_for_pub_secretbreak, ("n",)), "forcheck": (p_forcheck, ("n",)),
             "lazy": (p_lazy, ("c", "x", "y")), "lazy_div": (p_lazy_div, ("x", "y"))}
 
 
@@ -414,7 +435,7 @@ def build(n=4, tier="quick"):
         kinds = ("plain", "cmp") if nm not in ("lazy_div", "while", "for", "forcheck", "while_in_for") else ("cmp",)
         if nm in ("lazy", "lazy_cmp_branches"):
             kinds = ("bool", "cmp")
-        if nm in ("while_pubbreak", "for_break"):
+        if nm in ("while_pubbreak", "for_break", "for_pub_secretbreak"):
             kinds = ("plain", "cmp")
         for kind in kinds:
             def assume(k, ins=ins, nm=nm):
